@@ -32,6 +32,11 @@ var detDisturbers = []string{
 
 var detKeys = []string{"id", "ID", "title", "Title", "a", "b", "c", "zeta", "alpha", "Beta", "k1", "k2", "k10", "é", "_x", "name", "Name", "x"}
 
+// key sets for entries that fail together: plain, differing only in case, sharing prefixes, digits
+var detKeyFamilies = [][]string{
+	{"zz", "aa", "Mm", "bb", "yy"}, {"id", "ID", "Id", "iD", "aa"}, {"name", "Name", "NAME", "nAme", "naMe"}, {"k10", "k9", "k1", "K1", "k"}, {"aa", "aA", "Aa", "AA", "a"}, {"_x", "x", "X", "_X", "x_"},
+}
+
 func manyKeyObject(r *rand.Rand, n int, depth int) map[string]any {
 	out := map[string]any{}
 	perm := r.Perm(len(detKeys))
@@ -82,9 +87,10 @@ func genDetCase(c *core.Ctx, i int) detCase {
 		fails := []string{"nope1", "1 / 0", "\"x\" + 1", "nope2.y", "5.nofn()", "7 % 0", "[1][0].k"}
 		r.Shuffle(len(fails), func(a, b int) { fails[a], fails[b] = fails[b], fails[a] })
 		n := 2 + r.Intn(3)
+		failKeys := detKeyFamilies[r.Intn(len(detKeyFamilies))]
 		var pairs []string
 		for k := 0; k < n; k++ {
-			pairs = append(pairs, fmt.Sprintf("%s: %s", []string{"zz", "aa", "Mm", "bb", "yy"}[k], fails[k]))
+			pairs = append(pairs, fmt.Sprintf("%s: %s", failKeys[k], fails[k]))
 		}
 		if r.Intn(2) == 0 {
 			pairs = append(pairs, "ok: 1")
@@ -119,13 +125,14 @@ func genDetCase(c *core.Ctx, i int) detCase {
 		fails := []string{"nope1", "1 / 0", "\"x\" + 1", "nope2.y"}
 		r.Shuffle(len(fails), func(a, b int) { fails[a], fails[b] = fails[b], fails[a] })
 		n := 2 + r.Intn(3)
+		argKeys := detKeyFamilies[r.Intn(len(detKeyFamilies))]
 		var args []string
 		for k := 0; k < n; k++ {
 			v := fails[k]
 			if r.Intn(3) == 0 {
 				v = fmt.Sprintf("%d", k)
 			}
-			args = append(args, fmt.Sprintf("%s: %s", []string{"zz", "aa", "Mm", "bb"}[k], v))
+			args = append(args, fmt.Sprintf("%s: %s", argKeys[k], v))
 		}
 		files := map[string]string{
 			"components/c.tw": "<{{ aa }}>",
